@@ -782,7 +782,7 @@ static int vi_yank(int r1, int o1, int r2, int o2, int lnmode)
 	free(region);
 	xrow = r1;
 	xoff = lnmode ? xoff : o1;
-	return 0;
+	return lnmode ? 0 : VC_COL;	/* the cursor may have moved to the start of the region */
 }
 
 static int vi_delete(int r1, int o1, int r2, int o2, int lnmode)
